@@ -324,16 +324,19 @@ fn stuck_class(d: &Driver) -> &'static str {
             }
         }
     }
-    if waiting {
-        return "follower-waiting-for-requested-snapshot";
-    }
     {
+        // (checked before the weaker "some follower waits for a snapshot" class: a request the
+        // leader holds for one follower beyond its own commit index is what blocks, whatever
+        // another follower may be waiting for)
         let r = d.sim.nodes[l].raw.as_ref().unwrap();
         for (id, p) in r.raft.prs().iter() {
             if *id != d.sim.nodes[l].id && p.pending_request_snapshot > lcommit {
                 return "leader-holds-snapshot-request-beyond-its-commit";
             }
         }
+    }
+    if waiting {
+        return "follower-waiting-for-requested-snapshot";
     }
     let r = d.sim.nodes[l].raw.as_ref().unwrap();
     for (id, p) in r.raft.prs().iter() {
